@@ -16,7 +16,7 @@ CHUNK = 10
 RULE = ("for each seeded statement sequence (TripleStream / QuadStream / GraphStream of both integrations, driven "
         "statement by statement) EVERY (position, slot in {s,p,o,g,nested}, cause) at which a statement can be made "
         "unencodable is injected in a fresh stream; causes: unsupported term object, typed literal while the datatype "
-        "table is disabled, statement tuple too short; the caller catches and continues; evaluations = injected "
+        "table is disabled, statement tuple too short, namespace declaration with a non-string IRI; the caller catches and continues; evaluations = injected "
         "faults; non-trivial = the rejected statement is neither first nor last; distinct = distinct (sequence, "
         "position, slot, cause)")
 COMPONENTS = {"real": ["pyjelly Stream.triple/quad/graph, TermEncoder, LookupEncoder, flows of both integrations"],
@@ -25,7 +25,7 @@ ASSUMPTIONS = ["sequences are sampled by seed; injection points are enumerated p
                "for GraphStream.graph() a failure inside a graph may keep or drop the triples of that graph that were "
                "accepted before the failing one"]
 EXHAUSTIVE_NOTE = "per sequence: every position x slot x applicable cause"
-PROBES = ["cause_unsupported", "cause_typed_literal", "cause_short_tuple", "slot_nested", "slot_g",
+PROBES = ["cause_bad_namespace", "cause_unsupported", "cause_typed_literal", "cause_short_tuple", "slot_nested", "slot_g",
           "stream_refused_later_use", "no_trace", "physical_GRAPHS", "integration_rdflib"]
 SHRINK_LISTS = ["ops"]
 
@@ -80,6 +80,7 @@ def injections(cfg, stmts):
             if cfg["max_datatypes"] == 0:
                 out.append((pos, "nested", "typed_literal"))
         out.append((pos, "-", "short_tuple"))
+        out.append((pos, "-", "bad_namespace"))
     return out
 
 
@@ -137,10 +138,13 @@ def drive(cfg, stmts, inj, lex):
 
     for i, st in enumerate(stmts):
         if i == pos:
-            bad = bad_statement(cfg, st, slot, cause, lex)
             info["bytes_at_fault"] = len(out.getvalue())
             try:
-                submit(bad, None)
+                if cause == "bad_namespace":
+                    # a namespace declaration whose IRI is not a string
+                    stream.namespace_declaration("p", None)
+                else:
+                    submit(bad_statement(cfg, st, slot, cause, lex), None)
                 info["rejected"] = False
             except BaseException as e:  # noqa: BLE001
                 if not isinstance(e, Exception) and not isinstance(e, StopIteration):
